@@ -512,6 +512,9 @@ container interrogated a library-internal iterator).";
         ("exhaustive", J::Bool(false)),
         ("executions_of_real_code", J::Int(agg.executions as i64)),
         ("runs_per_source", counts_to_j(&agg.per_source)),
+        ("sources_enumerated_completely_within_their_stated_bounds", J::Arr(
+            agg.per_source.keys().filter(|k| k.starts_with("directed/")).map(|k| J::s(k)).collect(),
+        )),
         ("simulated_time", J::obj(vec![
             ("note", J::s("the system has no clock or timer; logical time is counted in consumer steps and items pulled")),
             ("consumer_steps", J::Int(agg.consumer_ops as i64)),
